@@ -9,7 +9,7 @@ from ..framework import LEAN, TieBroken, write_if_changed
 OUT = os.path.join(LEAN, 'HailVerif', 'Generated', 'Machines.lean')
 
 SOURCES = ['batch/batch/cloud/gcp/resource_utils.py', 'batch/batch/cloud/azure/resource_utils.py', 'batch/batch/globals.py',
-           'batch/batch/cloud/resource_utils.py']
+           'batch/batch/cloud/resource_utils.py', 'batch/batch/cloud/gcp/instance_config.py', 'batch/batch/cloud/azure/instance_config.py']
 
 
 def _s(x):
@@ -68,6 +68,13 @@ def read_tables(repo):
         t['azure_local_ssd_per_core_x2'] = [(k, int(v * 2)) for k, v in az.azure_local_ssd_size_per_core_by_worker_type.items()
                                             if float(v * 2).is_integer()]
         t['gcp_local_ssd_gib'] = gcp.gcp_local_ssd_size()
+        import batch.cloud.azure.instance_config as azic
+        import batch.cloud.gcp.instance_config as gic
+        t['gcp_instance_config_version'] = gic.GCP_INSTANCE_CONFIG_VERSION
+        t['azure_instance_config_version'] = azic.AZURE_INSTANCE_CONFIG_VERSION
+        # SortedSet iteration order = ascending size (what bisect_key_left indexes)
+        t['azure_disks'] = [(fam, [(d.name, d.size_in_gib) for d in az.azure_disks_by_disk_type[fam]])
+                            for fam in sorted(az.azure_disks_by_disk_type.keys())]
     except TieBroken:
         raise
     except Exception as e:
@@ -126,6 +133,12 @@ def render(repo, t):
     L.append(f'def gcpLocalSsdGiB : Nat := {_n(t["gcp_local_ssd_gib"])}')
     L.append('def azureLocalSsdPerCoreTimes2 : List (String × Nat) := ' +
              _list([f'({_s(k)}, {_n(v)})' for k, v in t['azure_local_ssd_per_core_x2']]))
+    L.append('/-- `GCP_INSTANCE_CONFIG_VERSION`, `AZURE_INSTANCE_CONFIG_VERSION` (cloud/*/instance_config.py) -/')
+    L.append(f'def gcpInstanceConfigVersion : Nat := {_n(t["gcp_instance_config_version"])}')
+    L.append(f'def azureInstanceConfigVersion : Nat := {_n(t["azure_instance_config_version"])}')
+    L.append('/-- azure `azure_disks_by_disk_type`: disk family ↦ (disk name, size GiB) in ascending size (SortedSet order) -/')
+    L.append('def azureDisks : List (String × List (String × Nat)) := ' +
+             _list(['(' + _s(f) + ', [' + ', '.join(f'({_s(n)}, {_n(z)})' for n, z in ds) + '])' for f, ds in t['azure_disks']]))
     L.append('')
     L.append('end HailVerif.Generated.Machines')
     return '\n'.join(L) + '\n'
